@@ -33,7 +33,7 @@ PROPS = {
         "text": "every proper prefix of a chunk is eof (proved); exhaustive cut positions on real archives",
     },
     "C13": {
-        "lean": ["PnaVerif.Props.Consts", "PnaVerif.Props.C13", "PnaVerif.Props.C13Entry", "PnaVerif.Props.C04Read"],
+        "lean": ["PnaVerif.Props.Consts", "PnaVerif.Props.C13", "PnaVerif.Props.C13Entry", "PnaVerif.Props.C04Read", "PnaVerif.Props.C13Raw"],
         "families": ["chunk", "parse", "entry", "edit", "concat", "split"],
         "ops": {"split": []},
         "cli": True,
@@ -98,7 +98,7 @@ PROPS = {
         "text": "size limit, losslessness, termination/rejection proved for all archives and all maxima; split family: every max around the overhead on real archives, parts re-read",
     },
     "C10": {
-        "lean": ["PnaVerif.Props.Consts", "PnaVerif.Props.C10", "PnaVerif.Props.C10Mode", "PnaVerif.Props.C10Target"],
+        "lean": ["PnaVerif.Props.Consts", "PnaVerif.Props.C10", "PnaVerif.Props.C10Mode", "PnaVerif.Props.C10Target", "PnaVerif.Props.C10Acl", "PnaVerif.Props.C10Bits"],
         "families": ["edit", "fault", "cli-codec"],
         "cli": True,
         "trusted": COMMON_TRUST + ["globset (selection) and the system user database (chown) enter as oracle answers", "clap argument parsing"],
